@@ -364,6 +364,15 @@ def build(spec, salt=0, level=0, seed=0):
             in_axes = jtu.tree_map(lambda _: None, unwrap(a))
             in_axes = eqx.tree_at(lambda b: b.loc, in_axes, 0, is_leaf=lambda x: x is None)
             return B.Vmap(a, in_axes=in_axes, in_axes_condition=ca)
+        if spec["mode"] == "axis1":  # parameters mapped along a NON-leading axis (in_axes=if_array(1)), non-square
+            assert spec["c"]["k"] == "Affine" and len(spec["c"]["shape"]) == 1
+            d_, n_ = spec["c"]["shape"][0], spec["n"]
+            a = sub(0, spec["c"])
+            loc = (0.8 * _pat(d_ * n_, sf, 1.4)).reshape(d_, n_)
+            raw = (0.3 + 0.9 * _pat(d_ * n_, sf + 2, 2.2)).reshape(d_, n_)
+            a = eqx.tree_at(lambda b: b.loc, a, loc)
+            a = eqx.tree_at(lambda b: b.scale.arr, a, raw)
+            return B.Vmap(a, in_axes=eqx.if_array(1), in_axes_condition=ca)
         raise KeyError(spec["mode"])
     if k == "Concatenate":
         return B.Concatenate([sub(i, c) for i, c in enumerate(spec["c"])], axis=spec["axis"])
@@ -674,6 +683,7 @@ def enumerate_exprs(tier):
     if tier != "quick":
         d1 += [s for s in (L("Chain", c=[a, b, c]) for a, b, c in itertools.product(reps[:12], repeat=3)) if _well(s)]
     d1.append(L("Vmap", c=L("Affine", shape=[]), mode="mixed", n=3, cond_axis=None))
+    d1.append(L("Vmap", c=L("Affine", shape=[2]), mode="axis1", n=5, cond_axis=None))
     d1 = dedupe(d1)
     if tier == "quick":
         d1 = _one_per_kind(d1)
